@@ -2298,9 +2298,10 @@ class CppEmitter(Visitor):
                 step_cast = self._range_bound(e.args[2], result_ty.elt, ctx)
                 ctr = self._fresh_temp()
                 out, append = self._open_list_build(result_ty)
+                test = self._range_exit_test(ctr, stop_cast, e.args[2], step_cast)
                 self.writer.add_line(
-                    f'for ({int_ty} {ctr} = {start_cast}; '
-                    f'{ctr} < {stop_cast}; {ctr} += {step_cast}) {{'
+                    f'for ({int_ty} {ctr} = {start_cast}; {test}; '
+                    f'{ctr} += {step_cast}) {{'
                 )
                 self.writer.indent()
                 self.writer.add_line(f'{append(ctr)};')
@@ -3672,6 +3673,14 @@ class CppEmitter(Visitor):
                     at=stmt,
                 )
 
+    @staticmethod
+    def _range_exit_test(counter: str, stop: str, step_expr: Expr, step: str) -> str:
+        """The loop test of a stepped ``range``: a negative step counts down
+        to, and stops above, `stop`."""
+        if isinstance(step_expr, Integer):
+            return f'{counter} < {stop}' if step_expr.val > 0 else f'{counter} > {stop}'
+        return f'({step} > 0 ? {counter} < {stop} : {counter} > {stop})'
+
     def _for_header(self, iterable: Expr, target: str, decl: str,
                     target_def, ctx) -> str:
         """The ``for (...)`` header for *iterable*, without the brace.
@@ -3698,10 +3707,8 @@ class CppEmitter(Visitor):
                 start = self._visit_expr(iterable.args[0], ctx)
                 stop = self._visit_expr(iterable.args[1], ctx)
                 step = self._visit_expr(iterable.args[2], ctx)
-                return (
-                    f'for ({decl} = {start}; '
-                    f'{target} < {stop}; {target} += {step})'
-                )
+                test = self._range_exit_test(target, stop, iterable.args[2], step)
+                return f'for ({decl} = {start}; {test}; {target} += {step})'
             case _:
                 iter_str = self._visit_expr(iterable, ctx)
                 iter_ty = self._storage_for_expr(iterable)
